@@ -9,6 +9,20 @@ CHECKS = {
  "C05": ("3/C05", "All histories of response datagrams and clock steps up to the reported depth over the reported alphabet are executed on the real record manager and cache (live instance, real purge timer); after every event all lookup paths are compared with an independent RFC 6762 s.10 model. Exhaustive within alphabet and depth.",
          "Trusted: the virtual loop/clock seam, the s.10 reference model, the wire encoder of /verif. Values outside the alphabet are covered by the region argument (DESIGN 1), not by execution."),
 }
+CHECKS.update({
+ "C01": ("3/C01", "Every message of the reported bounded spaces (all sequences of <= k placed entries over a name/record alphabet forcing every compression shape, all modes, rollback byte-position sweeps, section sizes to 300) is built by the real encoder and decoded by the library and by an independent strict RFC 1035 decoder; exhaustive within those spaces.",
+         "Trusted: /verif/mc/wire.py (independent decoder). Inputs outside the alphabets are not executed."),
+ "C02": ("3/C02", "Every datagram of the reported spaces (all bodies over an 11-byte adversarial alphabet to length 5-7 under 30 headers, structurally enumerated records, all compression graphs on <= 4-5 names, chain/stack/length families, all single edits of 15 seed messages) is decoded by the real decoder under a profile-event budget and compared with a strict parser where that accepts.",
+         "Trusted: the strict parser (it only shrinks the agreement set), the call budget constants. Random byte strings are not sampled."),
+ "C06": ("3/C06", "Same exhaustive history space as C05, x 5 listener configurations; per-datagram listener contract checked with cache snapshots taken inside the callbacks against the s.10 model.",
+         "Trusted: the s.10 reference model; the acting listener acts during the last datagram of each history (every prefix is itself explored)."),
+ "C14": ("3/C14", "The C01 message spaces; every emitted datagram sequence is checked for the 8966/1460 limits, exact header counts (strict decoder consumes the datagram exactly), exactly-once placement per section, and TC-on-all-but-last for queries only.",
+         "Trusted: /verif/mc/wire.py. Entries that do not fit a datagram alone are outside the quantifier."),
+ "C19": ("3/C19", "Full product of a rule-violation grammar for names in both strict modes plus all strings of length <= 5-7 over a 5-character alphabet before 4 suffixes, against an independent three-valued validator; all small property dictionaries against an independent RFC 6763 s.6 parser.",
+         "Trusted: /verif/mc/models/name_model.py (UNSPECIFIED where the documented rules do not decide)."),
+ "C20": ("3/C20", "All ordered pairs over a vocabulary of ~1400 record/question objects varying one identity field at a time; ==, !=, hash, set/dict, DNSRRSet and DNSCache lookups against an identity-tuple model.",
+         "Trusted: the identity model as read from the property statement."),
+})
 NOT_YET = {}
 
 def main():
